@@ -2119,7 +2119,7 @@ class _GroupElem(ABC):
 
                 if not useIterative_e[e]:
                     # The fastest method, available only for undistorted meshes.
-                    xiP = xiOrigin + (xP_n - x0) @ invF_e_pg[e, 0]
+                    xiP = xiOrigin + (xP_n - x0) @ np.asarray(invF_e_pg[e, 0])
 
                 else:
                     # This is the most time-consuming method.
